@@ -90,6 +90,48 @@ func lalrkCFG(rng *rand.Rand, k int) *cfg {
 	return g.reduced()
 }
 
+// lalrkMultiCFG: the two twins conflict on SEVERAL lookahead terminals, each needing its own depth: for every
+// conflict terminal x both twins have a context starting with x that shares d_x further tokens before it
+// differs. Compiled with a k between the depths the conflict must be reported (not resolved by the last one).
+func lalrkMultiCFG(rng *rand.Rand) *cfg {
+	nterms := 5 + rng.Intn(3)
+	g := &cfg{nterms: nterms}
+	s, a, b := nterms, nterms+1, nterms+2
+	term := func() int { return 1 + rng.Intn(nterms-1) }
+	alpha := []int{term()}
+	g.rules = append(g.rules, cfgRule{lhs: a, rhs: alpha}, cfgRule{lhs: b, rhs: alpha})
+	nconf := 2 + rng.Intn(2)
+	perm := rng.Perm(nterms - 1)
+	for c := 0; c < nconf && c < len(perm); c++ {
+		x := 1 + perm[c]
+		d := rng.Intn(4) // tokens shared after x
+		var shared []int
+		for i := 0; i < d; i++ {
+			shared = append(shared, term())
+		}
+		t1 := term()
+		t2 := term()
+		for t2 == t1 {
+			t2 = term()
+		}
+		g.rules = append(g.rules,
+			cfgRule{lhs: s, rhs: append(append([]int{a, x}, shared...), t1)},
+			cfgRule{lhs: s, rhs: append(append([]int{b, x}, shared...), t2)})
+	}
+	g.nnonterms = 3
+	g.inputs = []cfgInput{{nt: s, eoi: true}}
+	var sorted []cfgRule
+	for nt := nterms; nt < nterms+3; nt++ {
+		for _, r := range g.rules {
+			if r.lhs == nt {
+				sorted = append(sorted, r)
+			}
+		}
+	}
+	g.rules = sorted
+	return g.reduced()
+}
+
 func c07Tables(rng *rand.Rand, n int, args []string) {
 	tried, done := 0, 0
 	for done < n && tried < 80*n {
@@ -103,6 +145,8 @@ func c07Tables(rng *rand.Rand, n int, args []string) {
 			kn.noEoi = false
 			kn.multiInput = false
 			g = genCFG(rng, kn).reduced()
+		} else if rng.Intn(3) == 0 {
+			g = lalrkMultiCFG(rng)
 		} else {
 			g = lalrkCFG(rng, k)
 		}
